@@ -24,6 +24,12 @@ func main() {
 	switch os.Args[1] {
 	case "worker":
 		engine.WorkerMain()
+	case "racebody":
+		var seed int64
+		if len(os.Args) > 2 {
+			fmt.Sscan(os.Args[2], &seed)
+		}
+		os.Exit(checks.RaceBody(seed))
 	case "list":
 		ids := []string{}
 		for id := range checks.All {
